@@ -76,9 +76,51 @@ type Ann struct {
 	Text    string   `json:"text"` // the annotation value sent to the plugins
 }
 
+// PluginOpts is the command line the two plugin processes serving the case were started
+// with (the flags main() of each plugin defines: -verbose, -name, -idx). The statement does
+// not depend on any of them.
+type PluginOpts struct {
+	InjVerbose bool `json:"injector_verbose,omitempty"` // device-injector -verbose
+	AdjVerbose bool `json:"adjuster_verbose,omitempty"` // ulimit-adjuster -verbose (debug log level)
+	NameIdx    bool `json:"name_idx_flags,omitempty"`   // both: explicit -name / -idx
+}
+
+func (o PluginOpts) injectorFlags() []string {
+	var f []string
+	if o.NameIdx {
+		f = append(f, "-name", "injector-by-flag", "-idx", "07")
+	}
+	if o.InjVerbose {
+		f = append(f, "-verbose")
+	}
+	return f
+}
+
+func (o PluginOpts) adjusterFlags() []string {
+	var f []string
+	if o.NameIdx {
+		f = append(f, "-idx", "93", "-name", "adjuster-by-flag")
+	}
+	if o.AdjVerbose {
+		f = append(f, "-verbose")
+	}
+	return f
+}
+
+// the option sets in use (each one costs a pair of plugin processes per shard)
+var optionSets = []PluginOpts{
+	{},
+	{InjVerbose: true},
+	{AdjVerbose: true},
+	{InjVerbose: true, AdjVerbose: true},
+	{NameIdx: true},
+	{InjVerbose: true, AdjVerbose: true, NameIdx: true},
+}
+
 type C20Case struct {
-	Ctr  string `json:"ctr"` // name of the container being created
-	Anns []Ann  `json:"anns"`
+	Ctr  string     `json:"ctr"` // name of the container being created
+	Opts PluginOpts `json:"opts"`
+	Anns []Ann      `json:"anns"`
 	// Req is everything else in the request (the container's own spec, labels, other pod
 	// annotations). The expected adjustment does not depend on it.
 	Req *ReqCtx `json:"req,omitempty"`
@@ -530,6 +572,7 @@ func genC20(t *rapid.T) C20Case {
 		rapid.StringMatching(`[a-z][a-z0-9]{0,2}-[a-z0-9]{1,2}`),
 	).Draw(t, "ctr")
 	c := C20Case{Ctr: ctr}
+	c.Opts = rapid.SampledFrom(optionSets).Draw(t, "opts")
 
 	// other container names that receive annotations
 	pool := relatedNames(ctr)
